@@ -120,6 +120,66 @@ def chain(env, item):
 FNS = {"one_pair": one_pair, "chain": chain}
 
 
+BIG_LENGTHS = [2 ** 31, 2 ** 32 - 1, 2 ** 32, 2 ** 40 + 7]
+BIG_ITEMS = [("char", 1), ("short", 2), ("char *", 8), ("int(*)(int)", 8), ("short *(*)(int)", 8)]
+BIG_SUFFIXES = ["", "*", " * ", "**", "*[5]", "[5]", "(*)[5]", "(*)(int)", "*(*)(int)"]
+MAX_SUFFIXES = ["", "*", "**", "*[5]", "*(*)(int)"]          # nothing that multiplies the size again
+
+
+def _recode(t, n, code):
+    if isinstance(t, dict):
+        return {k: (code if k == "len" and v == n else _recode(v, n, code)) for k, v in t.items()}
+    if isinstance(t, list):
+        return [_recode(x, n, code) for x in t]
+    return t
+
+
+def big_length_records(ctx, env):
+    """Array lengths that do not fit TLC's 32-bit integers (2^31 .. sys.maxsize // itemsize), real values on the in-line
+    FFI, the API-mode FFI and a bare _cffi_backend.FFI() (the out-of-line ABI generator limits lengths to 2^31 - 1).  The
+    digits are checked here (the name and every getctype text carry exactly '[N]', brackets balanced); TLC validates the
+    records under an abstract length code that stands for N."""
+    import sys as _sys, _cffi_backend
+    ffis = [("inline", env.inline, "py"), ("api", env.api, "c"), ("backend", _cffi_backend.FFI(), "c")]
+    recs = []
+    for item, isz in BIG_ITEMS:
+        item_name = None
+        for bi, n in enumerate(BIG_LENGTHS + [_sys.maxsize // isz]):
+            code = 70001 + bi
+            sufs = MAX_SUFFIXES if n == _sys.maxsize // isz else BIG_SUFFIXES
+            # the item's name with the array brackets at its declarator position
+            for mode, f, impl in ffis:
+                if f is None:
+                    continue
+                decl = f.getctype(item, "[%d]" % n)
+                ctx.case(("big", mode, decl))
+                try:
+                    ct = f.typeof(decl)
+                except Exception as e:
+                    ctx.violation("big:typeof-raised:%s" % type(e).__name__, "typeof(%r) raised %s: %s (%s FFI)" % (decl, type(e).__name__, e, mode),
+                                  {"kind": "big", "mode": mode, "name": decl, "x": ""})
+                    continue
+                for x in sufs:
+                    text = f.getctype(ct, x)
+                    digits = "[%d]" % n
+                    if ct.cname.count(digits) != 1 or text.count(digits) != 1 or text.count("[") != text.count("]") \
+                            or text.count("(") != text.count(")"):
+                        ctx.violation("big:balanced:digits=%d" % len(str(n)),
+                                      "the name / getctype text of an array of %d items does not carry '[%d]' once, balanced: "
+                                      "name %r, getctype(T, %r) = %r (%s FFI)" % (n, n, ct.cname, x, text, mode),
+                                      {"kind": "big", "mode": mode, "name": decl, "x": x})
+                        continue
+                    b = pe.outcome(f, text)
+                    rec = {"mode": mode, "t": _recode(pe.project(ct), n, code), "name": ct.cname.replace(digits, "[%d]" % code),
+                           "x": x, "text": text.replace(digits, "[%d]" % code), "impl": impl,
+                           "back": {"r": "ok", "t": _recode(pe.project(b[1]), n, code)} if b[0] == "ok" else {"r": "err", "t": {"k": "none"}},
+                           "same": (b[0] == "ok" and b[1] is ct) if x == "" else True, "real_n": n}
+                    if b[0] != "ok":
+                        rec["back_err"] = "%s: %s" % (b[1], b[2])
+                    recs.append(rec)
+    return recs
+
+
 def tlc_validate(ctx, recs, label):
     verdicts, diags = [], []
     for i in range(0, len(recs), 20000):
@@ -212,11 +272,12 @@ def gcc_sizes(ctx, env, decls):
 def run(ctx):
     quick = ctx.quick
     rng = ctx.rng
-    confs = [("laws(mid,d1)", 1, "mid"), ("laws(small,d2)", 2, "small")] if quick else \
-            [("laws(full,d2)", 2, "full"), ("laws(small,d3)", 3, "small")]
-    with ThreadPoolExecutor(4) as ex:
+    confs = [("laws(mid,d1)", 1, "mid"), ("laws(tiny,d2)", 2, "tiny"), ("laws(big,d2)", 2, "big")] if quick else \
+            [("laws(full,d2)", 2, "full"), ("laws(small,d3)", 3, "small"), ("laws(bigall,d2)", 2, "bigall")]
+    with ThreadPoolExecutor(6) as ex:
         futs = [ex.submit(core.tlc, "CTypesLaws", cfg_text=cfg(d, p), workers=4, timeout=2400) for _n, d, p in confs]
-        bad = ex.submit(core.tlc, "CTypesLaws", cfg_text=cfg(2, "small", "name-pos", ("NameRoundTrip", "InsertDenotesC")), workers=2)
+        bad = ex.submit(core.tlc, "CTypesLaws", cfg_text=cfg(2, "tiny", "name-pos", ("NameRoundTrip", "InsertDenotesC")), workers=2)
+        bad2 = ex.submit(core.tlc, "CTypesLaws", cfg_text=cfg(1, "big", "name-trunc", ("NameRoundTrip", "NameIsCanon")), workers=2)
         envf = ex.submit(pe.Env, ctx.tmp, "c08")
         rows = []
         for (n, d, p), f in zip(confs, futs):
@@ -227,6 +288,10 @@ def run(ctx):
         ctx.add_tlc("sanity:name-pos", r, require_ok=False, count_states=False)
         if r.ok or "is violated" not in r.out:
             raise core.MachineryError("the broken name builder (ct_name_position off by one) was not rejected by TLC")
+        r = bad2.result()
+        ctx.add_tlc("sanity:name-trunc", r, require_ok=False, count_states=False)
+        if r.ok or "is violated" not in r.out:
+            raise core.MachineryError("the broken name builder (decimal text of the length truncated) was not rejected by TLC")
         env = envf.result()
     if not rows:
         raise core.MachineryError("CTypesLaws printed no pair")
@@ -253,8 +318,10 @@ def run(ctx):
             o["impl"] = "py" if o["mode"] == "inline" else "c"
             o["meta"] = meta
             recs.append(o)
-            if x == "v" and o.get("size") is not None and meta["size"] >= 0:
-                decls.append((o["mode"], re.sub(r"\bv\b", "v%d" % len(decls), o["text"], 1), o["size"], meta["size"], name))
+            if x == "v" and o.get("size") is not None and (meta["size"] >= 0 or (T["k"] == "arr" and o["size"] < 2 ** 40)):
+                # meta size -1: beyond TLC's integers - gcc is then compared with ffi.sizeof only
+                decls.append((o["mode"], re.sub(r"\bv\b", "v%d" % len(decls), o["text"], 1), o["size"],
+                              meta["size"] if meta["size"] >= 0 else None, name))
     # spec -> code: the real outcome of every pair against what TLC computed for it (U, texts)
     nd = 0
     notes = ctx.cov.setdefault("model_divergences", [])
@@ -280,8 +347,8 @@ def run(ctx):
     if nd:
         ctx.cov["model_divergence_count"] = ctx.cov.get("model_divergence_count", 0) + nd
         print("NOTE C08: %d getctype texts differ from the name-builder model (first: %s)" % (nd, notes[0]))
-    # code -> spec: TLC re-reads the real texts with the ideal reader: a seeded sample (800 quick / 40 000 thorough)
-    cap = 800 if quick else 40000
+    # code -> spec: TLC re-reads the real texts with the ideal reader: a seeded sample (500 quick / 40 000 thorough)
+    cap = 500 if quick else 40000
     vrecs = recs if len(recs) <= cap else rng.sample(recs, cap)
     pending_pairs = vrecs
     # ---------------------------------------------------------------- gcc: declared objects
@@ -290,7 +357,7 @@ def run(ctx):
     suffixes = sorted({x for _p, _T, x, *_ in rows})
     starts = sorted({name for name, T, x, U in items if T["k"] != "void"})
     citems = []
-    for i in range(200 if quick else 6000):
+    for i in range(120 if quick else 6000):
         citems.append((rng.choice(env.modes), rng.choice(starts), [rng.choice(suffixes) for _ in range(rng.randint(2, 9))]))
     cres = pe.pool_map(env, FNS, "chain", citems, nproc=8, chunk=200)
     crecs = []
@@ -301,13 +368,17 @@ def run(ctx):
                 ctx.violation("chain:getctype-raised", r["fail"], {"kind": "chain", "item": list(it)})
             else:
                 crecs.append(r)
+    # ---------------------------------------------------------------- code -> spec: lengths beyond TLC's integers
+    brecs = big_length_records(ctx, env)
+    crecs += brecs
     allv, alld = tlc_validate(ctx, pending_pairs + crecs, "pairs+chains")
     np_ = len(pending_pairs)
     report(ctx, pending_pairs, [v for v in allv if v[0] < np_], [d for d in alld if d[0] < np_], "pair")
     report(ctx, crecs, [(i - np_, v) for i, v in allv if i >= np_], [(i - np_, a, b) for i, a, b in alld if i >= np_], "chain")
     for r in (recs[:2] + crecs[-2:]):
         ctx.sample({k: r[k] for k in ("mode", "name", "x", "text", "back")})
-    ctx.cov["cases"] = {"pairs": len(items), "pair_records": len(recs), "chain_records": len(crecs),
+    ctx.cov["cases"] = {"pairs": len(items), "pair_records": len(recs), "chain_records": len(crecs) - len(brecs),
+                        "big_length_records": len(brecs),
                         "gcc_declarations": ndecl}
     ctx.cov["rule"] = ("distinct = (type name, suffix) pairs executed on the three FFIs plus distinct random getctype chains; "
                        "all non-trivial (each runs getctype and re-parses its output)")
